@@ -689,6 +689,12 @@ func main() {
 	knownF := flag.String("known", "", "")
 	replays := flag.String("replays", "replays", "")
 	replay := flag.String("replay", "", "")
+	// flags of the schedule explorer, accepted so that one command line can be
+	// passed to every run of the property; the rig has no use for them
+	flag.Duration("budget", 0, "ignored by the rig")
+	flag.Int("maxbound", -1, "ignored by the rig")
+	flag.Bool("unlockpoints", false, "ignored by the rig")
+	flag.String("only", "", "ignored by the rig")
 	xplore.QuietLogs()
 	flag.Parse()
 	start := time.Now()
